@@ -191,5 +191,22 @@ func streamCommit(c *Ctx) {
 		}
 		r0, _ := inclusion.GenerateSubtreeRoots(blob, thr)
 		held = append(held, heldC{blob, thr, alone, digList(r0)})
+		// representation independence: the same blob built on ONE flat record [namespace | data] (the namespace
+		// is a 29-byte view whose spare capacity is the blob's own data) has the same roots and commitment, twice
+		{
+			c.oracle()
+			record := append(append([]byte(nil), spec.ns...), spec.data...)
+			record0 := append([]byte(nil), record...)
+			if nsV, err := share.NewNamespaceFromBytes(record[:29]); err == nil {
+				if vb, err := share.NewBlob(nsV, record[29:], spec.ver, spec.signer); err == nil {
+					rv, _ := inclusion.GenerateSubtreeRoots(vb, thr)
+					cv1, _ := inclusion.CreateCommitment(vb, simpleMerkle, thr)
+					cv2, _ := inclusion.CreateCommitment(vb, simpleMerkle, thr)
+					if digList(rv) != digList(r0) || !bytes.Equal(cv1, alone) || !bytes.Equal(cv2, alone) || !bytes.Equal(record, record0) {
+						c.violate("C05", "", fmt.Sprintf("a %d-byte blob built on one flat [namespace|data] record has different subtree roots / commitment than the same blob built on separate allocations (or the record was modified)", len(spec.data)), "", nil)
+					}
+				}
+			}
+		}
 	}
 }
